@@ -5,7 +5,7 @@
    const <tid> <tnamehex> <oid> <data> <like>    -> fresh/hit <id> <key> | RuntimeError | bad-op
    op <kind> <id>*                               -> fresh/hit <id> <key> | bad-op
    eq <tid> <tnamehex> <oid> <data> <tid> <tnamehex> <oid> <data>
-                                                 -> <tupleEq> <pyEq> <sameKeyPart>   (0/1 each)
+                                                 -> <tupleEq> <pyEq> <sameKeyPart> <sameStr>   (0/1 each)
    <ty>   ::= T <kindhex> N | T <kindhex> B <n> | T <kindhex> S <hex> | T <kindhex> L <count> <ty>*
    <data> ::= i<int> | f<fl> | c<fl>|<fl> | s<hex>
    <fl>   ::= n<0|1>_<m>_<e> | I<0|1> | N<0|1>_<payload>
@@ -99,7 +99,7 @@ def showTlk (t : TLK) : String := ",".intercalate (t.1 :: t.2.map toString)
 
 def showKey : Key → String
   | .sym n t => s!"S:{hex n}:{showTy t}"
-  | .const _ tn l => s!"C:{hex tn}:({showKey l})"
+  | .const _ tn _ l => s!"C:{hex tn}:({showKey l})"
   | .op k args => s!"O:{k}:{";".intercalate (args.map showTlk)}"
 
 def showOut (s : State) : Out → String
@@ -129,7 +129,7 @@ def stepLine (s : State) (line : String) : State × String :=
   | ["eq", t1, n1, o1, d1, t2, n2, o2, d2] =>
       match parseVal t1 n1 o1 d1, parseVal t2 n2 o2 d2 with
       | some v, some w =>
-          (s, s!"{b01 (tupleEq v w)} {b01 (pyEq v.data w.data)} {b01 (decide (canon v = canon w ∧ v.tname = w.tname))}")
+          (s, s!"{b01 (tupleEq v w)} {b01 (pyEq v.data w.data)} {b01 (decide (canon v = canon w ∧ v.tname = w.tname ∧ v.data.strRep = w.data.strRep))} {b01 (decide (v.data.strRep = w.data.strRep))}")
       | _, _ => (s, "bad-op")
   | _ => (s, "bad-op")
 
